@@ -1079,6 +1079,24 @@ def gen_case(kind: str, vseed: int, j: int) -> dict:
     if kind == "path":
         c["path"] = gen_path(t)
         c["call"] = t.weighted(PATH_CALLS, "c.kind")
+    elif kind == "path_enum":
+        # EVERY (directory prefix of depth <= d) x final segment x {absolute, relative} x call, in a fixed order
+        calls = [k for k, _ in PATH_CALLS]
+        x = j
+        c["call"], x = calls[x % len(calls)], x // len(calls)
+        ab, x = bool(x % 2), x // 2
+        final, x = FINAL_SEGS[x % len(FINAL_SEGS)], x // len(FINAL_SEGS)
+        segs = []
+        if x > 0:
+            x -= 1
+            segs.append(DIR_SEGS[x % len(DIR_SEGS)])
+            x //= len(DIR_SEGS)
+            if x > 0:
+                x -= 1
+                segs.insert(0, DIR_SEGS[x % len(DIR_SEGS)])
+        rel = "/".join(segs + [final])
+        c["path"] = {"rel": rel, "absolute": ab or rel.startswith("/")}
+        c["kind"] = "path"
     elif kind == "path_seq":
         n_c, n_m, n_p = len(PSEQ_CALLS), len(PSEQ_MUTATIONS), len(PSEQ_PATHS)
         x = j
@@ -1137,11 +1155,13 @@ def gen_case(kind: str, vseed: int, j: int) -> dict:
 def units(tier: str, vseed: int) -> list:
     out = []
     if tier == "quick":
-        plan = [("path", 48, 400), ("schema", 13, 250), ("frozen", 14, 250), ("uri", 4, 120),
+        n_enum = len(PATH_CALLS) * 2 * len(FINAL_SEGS) * (1 + len(DIR_SEGS))  # depth <= 1, complete
+        plan = [("path_enum", -(-n_enum // 400), 400), ("path", 16, 400), ("schema", 13, 250), ("frozen", 14, 250), ("uri", 4, 120),
                 ("path_seq", 4, 216)]  # 3 402+ frozen pairs (state-setting first steps), all 3 136 schema pairs, 864 path sequences
         sweep_len = 4
     else:
-        plan = [("path", 1600, 800), ("schema", 320, 500), ("frozen", 200, 250), ("uri", 64, 240), ("path_seq", 16, 216)]
+        n_enum = len(PATH_CALLS) * 2 * len(FINAL_SEGS) * (1 + len(DIR_SEGS) + len(DIR_SEGS) ** 2)  # depth <= 2, complete
+        plan = [("path_enum", -(-n_enum // 800), 800), ("path", 800, 800), ("schema", 320, 500), ("frozen", 200, 250), ("uri", 64, 240), ("path_seq", 16, 216)]
         sweep_len = 5
     for kind, n, per in plan:
         for i in range(n):
@@ -1172,6 +1192,11 @@ def run_unit(unit: dict):
             viols.append({"clause": v["clause"], "signature": v["signature"], "detail": v["detail"], "case": case})
         return stats, viols
     for j in range(unit["start"], unit["start"] + unit["count"]):
+        if unit["kind"] == "path_enum":
+            depth = 1 if unit.get("tier") == "quick" else 2
+            if j >= len(PATH_CALLS) * 2 * len(FINAL_SEGS) * sum(len(DIR_SEGS) ** d_ for d_ in range(depth + 1)):
+                break
+            stats.inc("path_enum_cases")
         case = gen_case(unit["kind"], unit["vseed"], j)
         res = run_case(case, stats)
         for v in res["violations"]:
@@ -1269,6 +1294,8 @@ def main(tier: str, seed: int, args) -> int:
         "samples": stats.samples.get("path_case", [])[:2] + sorted(stats.sets.get("path_strings", ()))[40:46]
                    + sorted(stats.sets.get("schema_sweep_hits", ()))[:4],
         "units_done": done, "units_planned": len(us), "runs_per_hour": int(runs / wall * 3600) if wall else 0,
+        "path_enumeration": {"complete_up_to_directory_depth": 1 if tier == "quick" else 2, "cases": c.get("path_enum_cases", 0),
+                             "directory_segments": len(DIR_SEGS), "final_segments": len(FINAL_SEGS), "calls": len(PATH_CALLS)},
         "path_calls": c.get("path_calls", 0), "distinct_path_strings": len(stats.sets.get("path_strings", ())),
         "path_calls_where_refusal_was_required": c.get("nontrivial_path_calls", 0),
         "path_verdicts": dict(stats.groups.get("path_verdicts", {})), "refusal_reasons": dict(stats.groups.get("refusal_reasons", {})),
